@@ -36,7 +36,7 @@ t0=$(date +%s)
 t1=$(date +%s)
 git -C /repo checkout -- .
 # keep one replay produced against the seeded change with it, drop the rest (replays/ holds only real findings)
-mkdir -p $out/replay; f=$(ls /verif/replays/$prop/*.fail 2>/dev/null | head -1); [ -n "$f" ] && cp $f $out/replay/ ; find /verif/replays/$prop -type f -newer $out/patch.diff -delete 2>/dev/null
+mkdir -p $out/replay; f=$(ls /verif/replays/$prop/*.fail /verif/replays/$prop/*.json 2>/dev/null | head -1); [ -n "$f" ] && cp $f $out/replay/ ; find /verif/replays/$prop -type f -newer $out/patch.diff -delete 2>/dev/null
 grep -v KNOWN $out/check_quick.txt | cut -c1-300 | tail -4
 python3 - <<PY
 import json
